@@ -1,16 +1,51 @@
 import Sm9.Proofs.Program
+import Sm9.Proofs.Program2
 import Sm9.Proofs.RepIndep
 /-!
 # C16 — Any history of group operations behaves like arithmetic in Z_r
 
-`run_refines`: for **every** program (any length, any order of `one zero add sub neg mul
-normalize affine` over a register file of G1 values), register k of the concrete machine
-is a valid point denoting `d_k • P1`, where `d_k` is register k of the abstract machine
-that tracks only discrete logarithms in Z_r.  Equality tests and identity tests of results
-are exactly those of the discrete logs (P1 has order exactly r).  Encodings and pairings
-are functions of the denoted point (C10, C03).  The same induction applies to G2 registers
-with `G2.*` (C04/C05); the encode/decode step needs C08's decoder theorem and is decided
-by the correspondence check (exhaustive depth 2 over {0, 1, 2, r−1}, random beyond).
+## The mixed machine (what the differential driver runs)
+
+`Sm9/Model/Prog.lean` defines the register machine `mstep`/`mrun` over a mixed register file
+(`Reg := p1 G1 | p2 G2`) with the instructions `one1 one2 zero1 zero2 add sub neg mul normalize
+affine encdec` (`encdec i fmt`: encode register i in the raw / 0x04-prefixed / compressed format
+and decode it again; the identity is passed through).  `Sm9/Driver/Prog.lean` only parses the
+text of a `prog.group` line into `MInstr` and calls `mrun`; its observations are `Reg.eqObs`,
+`Reg.isZero`, the affine coordinates and the three pairings of `lastOf`.  The abstract machine
+`astep2`/`arun2` tracks (group tag, discrete logarithm in Z_r) and fails only on a bad index
+or on operands of different groups.
+
+Proved for **every** program `prog : List MInstr` (any length, any order, both groups):
+
+* `mrun_fails_iff` (no hypothesis): `mrun prog = none ↔ arun2 prog = none` — the machines fail on
+  exactly the same programs; in particular no encoder panics and no decoder rejects along a run.
+* `mrun_valid` (no hypothesis): if the abstract machine runs, so does the concrete one, and every
+  register is a valid point of the order-r subgroup of the group given by the abstract tag.
+* `mrun_refines`: moreover register k denotes `d_k • P1` resp. `d_k • P2`, `d_k` the abstract
+  register (`RegRel`), **under the hypothesis `G2CompressedSafe prog`**: whenever the *compressed*
+  encode/decode round trip is applied to a *G2* register with abstract log `d`, the point `d • P2`
+  has `Re y ≠ 0` (`ReYNonzero d`; holds for `d = 0`, for `d = 1`, and is decided for any concrete
+  `d` by one kernel evaluation, `reYNonzero_of_compute`).  The decidable condition
+  `NoG2Compressed prog` (no compressed round trip of a non-identity G2 value) implies it
+  (`mrun_refines_noG2Compressed`).  G1 in all three formats, G2 raw and uncompressed, and every
+  other instruction need no hypothesis.
+  **What remains**: a proof that no point of the order-r subgroup of the twist has `Re y = 0`.
+  For such a point both roots ±y carry the same sign bit and `G2::from_compressed` returns
+  whichever root `Fq2::sqrt` produces, so the round trip yields P or −P (C10
+  `g2_compressed_roundtrip_up_to_sign`; here `encDec2_compressed_up_to_sign`); the register is
+  still a valid subgroup point (`mrun_valid`) but its log may be `−d`.
+* observations are functions of (tag, log): `observe_reg_eq` (`==` ⇔ equal logs; registers of
+  different groups are not comparable, `observe_reg_eq_mixed`), `observe_reg_is_zero`
+  (`is_zero` ⇔ log = 0: P1, P2 have order exactly r), `observe_affine1/2` (equal affine
+  coordinates and equal encodings in all three formats), `observe_pairings` (the three pairing
+  entry points), `lastOf_rel` (the operands the driver pairs are those of the abstract machine);
+  `regRel_fresh`: `[d]P1`, `[d]P2` computed from scratch are related to (tag, d), so every
+  register is observationally identical to the freshly computed value of the same group element.
+
+## The one-group machine (kept)
+
+`run_refines`: for every program over `one zero add sub neg mul normalize affine` on a register
+file of G1 values, register k of `grun` denotes `d_k • P1` with `d_k` register k of `arun`.
 -/
 namespace Sm9.C16
 
@@ -33,5 +68,94 @@ theorem step_sub {F} [FieldElement F] (a b : G F) : a.sub b = a.add b.neg := rfl
 /-- non-vacuity: P − P followed by a scalar multiplication and an addition -/
 example : List.Forall₂ Rel (grun [.one, .sub 0 0, .mul 1 (Fr.ofNat 7), .add 2 0] : List G1)
     (arun [.one, .sub 0 0, .mul 1 (Fr.ofNat 7), .add 2 0]) := Sm9.run_refines _
+
+/-! ## the mixed machine -/
+
+theorem mrun_fails_iff (prog : List MInstr) : mrun prog = none ↔ arun2 prog = none :=
+  Sm9.mrun_fails_iff prog
+
+theorem mrun_valid (prog : List MInstr) (ds : List (Bool × Fr)) (h : arun2 prog = some ds) :
+    ∃ regs ds', mrun prog = some regs ∧ List.Forall₂ RegRel regs ds' ∧ ds'.map Prod.fst = ds.map Prod.fst :=
+  Sm9.mrun_valid prog ds h
+
+/-- main theorem; the hypothesis `G2CompressedSafe prog` is discussed in the header -/
+theorem mrun_refines (prog : List MInstr) (hsafe : G2CompressedSafe prog) (ds : List (Bool × Fr))
+    (h : arun2 prog = some ds) : ∃ regs, mrun prog = some regs ∧ List.Forall₂ RegRel regs ds :=
+  Sm9.mrun_refines prog hsafe ds h
+
+theorem mrun_refines_noG2Compressed (prog : List MInstr) (h : NoG2Compressed prog) (ds : List (Bool × Fr))
+    (ha : arun2 prog = some ds) : ∃ regs, mrun prog = some regs ∧ List.Forall₂ RegRel regs ds :=
+  Sm9.mrun_refines_noG2Compressed prog h ds ha
+
+/-- what the relation says -/
+theorem regRel_p1 (P : G1) (d : Fr) : RegRel (.p1 P) (true, d) ↔ (G1.Valid P ∧ G1.toAff P = d.val • gen1) := Iff.rfl
+theorem regRel_p2 (Q : G2) (d : Fr) : RegRel (.p2 Q) (false, d) ↔ (G2.Valid Q ∧ G2.toAff Q = d.val • gen2) := Iff.rfl
+theorem generator2_order : addOrderOf gen2 = r := gen2_addOrderOf
+
+/-- the encode/decode step itself -/
+theorem encdec_g1 (fmt : Fmt) (P : G1) (hP : G1.Valid P) : encDec1 fmt P = some (Api.normalize P) :=
+  encDec1_eq fmt P hP
+theorem encdec_g2 (fmt : Fmt) (P : G2) (hP : G2.Valid P) (hsub : r • G2.toAff P = 0)
+    (hre : fmt = .compressed → P.z ≠ 0 → (P.y / P.z ^ 3).c0 ≠ 0) : encDec2 fmt P = some (Api.normalize P) :=
+  encDec2_eq fmt P hP hsub hre
+theorem encdec_g2_compressed_up_to_sign (P : G2) (hP : G2.Valid P) (hsub : r • G2.toAff P = 0) :
+    encDec2 .compressed P = some (Api.normalize P) ∨ encDec2 .compressed P = some (Api.normalize P).neg :=
+  encDec2_compressed_up_to_sign P hP hsub
+
+/-- observations -/
+theorem observe_reg_eq {A B : Reg} {t : Bool} {a b : Fr} (hA : RegRel A (t, a)) (hB : RegRel B (t, b)) :
+    ∃ v, A.eqObs B = some v ∧ (v = true ↔ a = b) := Sm9.observe_reg_eq hA hB
+theorem observe_reg_eq_mixed {A B : Reg} {t u : Bool} {a b : Fr} (hA : RegRel A (t, a)) (hB : RegRel B (u, b))
+    (htu : t ≠ u) : A.eqObs B = none := Sm9.observe_reg_eq_mixed hA hB htu
+theorem observe_reg_is_zero {A : Reg} {t : Bool} {a : Fr} (hA : RegRel A (t, a)) :
+    A.isZero = true ↔ a = 0 := Sm9.observe_reg_is_zero hA
+theorem observe_affine1 {P P' : G1} {d : Fr} (h : Rel1 P d) (h' : Rel1 P' d) :
+    P.to_affine = P'.to_affine ∧ Api.g1ToSlice P = Api.g1ToSlice P' ∧
+    Api.g1ToUncompressed P = Api.g1ToUncompressed P' ∧ Api.g1ToCompressed P = Api.g1ToCompressed P' :=
+  Sm9.observe_affine1 h h'
+theorem observe_affine2 {Q Q' : G2} {d : Fr} (h : Rel2 Q d) (h' : Rel2 Q' d) :
+    Q.to_affine = Q'.to_affine ∧ Api.g2ToSlice Q = Api.g2ToSlice Q' ∧
+    Api.g2ToUncompressed Q = Api.g2ToUncompressed Q' ∧ Api.g2ToCompressed Q = Api.g2ToCompressed Q' :=
+  Sm9.observe_affine2 h h'
+theorem observe_pairings {p p' : G1} {qv qv' : G2} {a b : Fr} (hp : Rel1 p a) (hp' : Rel1 p' a)
+    (hq : Rel2 qv b) (hq' : Rel2 qv' b) :
+    Api.pairing p qv = Api.pairing p' qv' ∧ Api.fast_pairing p qv = Api.fast_pairing p' qv' ∧
+    (do let pr ← Api.prepare qv; Api.preparedPairing pr p) = (do let pr ← Api.prepare qv'; Api.preparedPairing pr p') :=
+  Sm9.observe_pairings hp hp' hq hq'
+theorem fresh_related (e : Bool × Fr) : RegRel (fresh e) e := regRel_fresh e
+theorem last_operands {regs : List Reg} {ds : List (Bool × Fr)} (h : List.Forall₂ RegRel regs ds) :
+    OptRel1 (lastOf regs).1 (alastOf ds).1 ∧ OptRel2 (lastOf regs).2 (alastOf ds).2 := lastOf_rel h
+
+/-- non-vacuity: both groups, a failing-free run with all three formats, the compressed round trip
+    of P2 (side condition `ReYNonzero 1` proved) and of the G2 identity -/
+example : ∃ regs, mrun [.one1, .one2, .zero2, .encdec 1 .compressed, .encdec 2 .compressed,
+      .encdec 0 .compressed, .add 1 3, .encdec 6 .slice, .encdec 6 .uncompressed, .sub 0 5] = some regs ∧
+    List.Forall₂ RegRel regs [(true, 1), (false, 1), (false, 0), (false, 1), (false, 0), (true, 1),
+      (false, 2), (false, 2), (false, 2), (true, 0)] := by
+  refine Sm9.mrun_refines _ ?_ _ (by decide +kernel)
+  refine ⟨trivial, fun _ h => ?_⟩
+  obtain rfl := Option.some.inj h
+  refine ⟨trivial, fun _ h => ?_⟩
+  obtain rfl := Option.some.inj h
+  refine ⟨trivial, fun _ h => ?_⟩
+  obtain rfl := Option.some.inj h
+  refine ⟨fun d hd => ?_, fun _ h => ?_⟩
+  · rw [show d = 1 from (Prod.mk.inj (Option.some.inj hd)).2.symm]; exact reYNonzero_one
+  obtain rfl := Option.some.inj h
+  refine ⟨fun d hd => ?_, fun _ h => ?_⟩
+  · rw [show d = 0 from (Prod.mk.inj (Option.some.inj hd)).2.symm]; exact reYNonzero_zero
+  obtain rfl := Option.some.inj h
+  refine ⟨fun d hd => (nomatch hd), fun _ h => ?_⟩
+  obtain rfl := Option.some.inj h
+  refine ⟨trivial, fun _ h => ?_⟩
+  obtain rfl := Option.some.inj h
+  refine ⟨trivial, fun _ h => ?_⟩
+  obtain rfl := Option.some.inj h
+  refine ⟨trivial, fun _ h => ?_⟩
+  obtain rfl := Option.some.inj h
+  exact ⟨trivial, fun _ _ => trivial⟩
+
+/-- the machines fail together: operands of different groups -/
+example : mrun [.one1, .one2, .add 0 1] = none := (Sm9.mrun_fails_iff _).2 (by decide +kernel)
 
 end Sm9.C16
